@@ -215,7 +215,11 @@ def _child_session(rec):
         if traced:
             sys.settrace(tracer)
         try:
-            es(mol, P0=P0)
+            # the differentiable variants are exercised through their forward pass; their backward pass (gradients of
+            # density-dependent outputs) is C07's subject, and with a density that is not a fixed point the implicit backward
+            # of scf_backward = 1 recurses without bound (seen under seeded changes c03d / c04c: a wall-clock hang, which is
+            # neither a replayable verdict nor this property)
+            es(mol, P0=P0, do_force=not cfgd.get("backward"))
         finally:
             sys.settrace(None)
             SL.MAX_ITER = 1000
@@ -276,14 +280,14 @@ def _child_session(rec):
             entry["lines"] = clock["n"]
             nc = es.notconverged.tolist()
             entry["notconverged"] = nc
-            entry["finite"] = bool(torch.isfinite(mol.Etot).all() and torch.isfinite(mol.force).all() and torch.isfinite(mol.dm).all())
+            entry["finite"] = bool(torch.isfinite(mol.Etot).all() and (not torch.is_tensor(mol.force) or torch.isfinite(mol.force).all()) and torch.isfinite(mol.dm).all())
             if entry["finite"]:
                 with torch.no_grad():
                     entry["res"] = residuals(mol, c["uhf"])
             entry["Etot"] = mol.Etot.detach().tolist()
             if c["uhf"] and mol.dm.dim() == 4:
                 entry["spin"] = (mol.dm[:, 0] - mol.dm[:, 1]).detach().abs().amax(dim=(1, 2)).tolist()
-            entry["force"] = mol.force.detach().tolist()
+            entry["force"] = mol.force.detach().tolist() if (torch.is_tensor(mol.force) and mol.force.numel()) else None
             entry["q"] = mol.q.detach().tolist() if torch.is_tensor(mol.q) else None
             e_mo = mol.e_mo.detach()
             entry["e_mo"] = (e_mo[:, 0] if e_mo.dim() == 3 else e_mo).tolist()
